@@ -7,7 +7,7 @@ import checks.c04 as c04, checks.c03 as c03
 from sim.seeds import sub
 path, want, out = sys.argv[1], sys.argv[2], sys.argv[3]
 text = open(path).read()
-name = os.path.relpath(path, "/repo")
+name = os.path.relpath(path, "/repo") if path.startswith("/repo") else os.path.relpath(path, "/verif")
 sort_lists = any(w in text for w in c03.LISTY)
 for s in range(400):
     sig, sigt, log, base, o = c04.pair_signature(text, "R", sub(s, "fw"), c03.file_model(path), sort_lists, evaluator="fast")
